@@ -77,7 +77,8 @@ def generate(R, tier, focus):
         cfg['n_cat_given'] = True
         # in-memory catalogs are user objects: they may carry their own `filters` attribute or their own region
         cfg['cat_filters_attr'] = R.random() < 0.3
-        cfg['list_region'] = R.choice((False, True, True, 'other'))
+        cfg['list_region'] = R.choice((False, True, True, 'other', 'permuted'))
+        cfg['list_region_perm_seed'] = R.randint(0, 10 ** 6)
     cfg['low_mag_unfiltered'] = False
     if cfg['apply_filters']:
         kinds = [k for k in ('mag', 'time') if R.random() < 0.6]
@@ -360,7 +361,19 @@ class FcWorld:
                 kw['filters'] = list(cfg['filters'])
         if cfg['source'] == 'list':
             lr = cfg.get('list_region')
-            creg = None if not lr else (region if lr is True else build.make_region(big_region(scn['region']), scn['mags']))
+            if not lr:
+                creg = None
+            elif lr is True:
+                creg = region
+            elif lr == 'permuted':
+                import random as _random
+                rl = dict(scn['region'])
+                key = 'origins' if rl['kind'] == 'cart' else 'quadkeys'
+                rl[key] = list(rl[key])
+                _random.Random(cfg.get('list_region_perm_seed', 0)).shuffle(rl[key])
+                creg = build.make_region(rl, scn['mags'])
+            else:
+                creg = build.make_region(big_region(scn['region']), scn['mags'])
             ckw = {}
             if cfg.get('cat_filters_attr') and use_filters and cfg['filters']:
                 ckw['filters'] = list(cfg['filters'])
